@@ -31,6 +31,9 @@ def run(tier, seed):
         p = vlib.run_driver(drv, ["release", "-seed", seed, "-out", tf3], timeout=900)
         sc.parse_stats(p.stdout, stats)
         sc.validate(v, "Trace_FrpsLifecycle", (vlib.SPEC / "Trace_FrpsLifecycle.cfg").read_text(), tf3, "release of idle backend connections")
+    if ok and not v.violations:
+        # a tcp group's port (fixed or server-chosen) is a resource of the group: held while it has members, given back with the last one
+        sc.tcp_group_histories(v, drv, d, seed + 5, 3 if tier == "quick" else 20, stats)
     if ok:
         evs = vlib.read_ndjson(tf)
         v.sample({"events": [{k: e[k] for k in e if k in ("ev", "pxy", "ok", "path", "pxys", "res", "goroutines", "fds")} for e in evs][:16]})
@@ -39,7 +42,7 @@ def run(tier, seed):
               rule="cycles on one real frps: 15 proxy definitions covering tcp, udp, http (2 domains x 2 locations), https (2 domains), tcpmux, stcp, sudp, xtcp, tcp and http group members, "
                    "incl. definitions whose second domain / port / name collides with a live proxy (registration fails part-way and must roll back); terminations by close request (often followed at once by the identical "
                    "registration), connection drop, replacement by a re-login with the same run id and heartbeat timeout; after every step all resource tables are read; after every cycle goroutine and descriptor counts; "
-                   "plus the FrpsPorts histories (failures at acquire / listen / name-add with rollback); plus 5 real frps / frpc pairs (limit none / server / client, encryption + compression, mux) whose http proxy is closed by a client reload while up to 3 idle backend connections sit in the pool; non-trivial = terminations and gate-scheduled partial failures",
+                   "plus the FrpsPorts histories (failures at acquire / listen / name-add with rollback); plus tcp group histories (fixed and server-chosen port) whose probes compare the port manager's used set with the open groups; plus 5 real frps / frpc pairs (limit none / server / client, encryption + compression, mux) whose http proxy is closed by a client reload while up to 3 idle backend connections sit in the pool; non-trivial = terminations and gate-scheduled partial failures",
               driver_stats=stats)
     v.assumptions += ["resource tables are read through verif-only inspectors; wrapped-transport closing under traffic is part of the C01 check; release of idle backend connections is observed at a counting backend",
                       "footprint slack: 12 goroutines / 8 descriptors over the first cycle"]
@@ -49,7 +52,7 @@ def run(tier, seed):
 def replay(path):
     v = vlib.Verdict(PROP, "quick", 0, "model_checking")
     evs = vlib.read_ndjson(path)
-    mod = "Trace_FrpsLifecycle" if any(e.get("ev", "").startswith("lc.") for e in evs) else "Trace_FrpsPorts"
+    mod = "Trace_FrpsLifecycle" if any(e.get("ev", "").startswith("lc.") for e in evs) else ("Trace_FrpsGroups" if any(e.get("ev", "").startswith("group.") for e in evs) else "Trace_FrpsPorts")
     sc.validate(v, mod, (vlib.SPEC / (mod + ".cfg")).read_text(), path, "replay")
     v.add_cov(states=1, transitions=1)
     v.sample({"replayed": str(path)})
